@@ -477,13 +477,15 @@ impl<KT: DbMapKeyType> VarFileKeyCache<KT> {
         {
             let free_piece_offset = self.0.pop_free_piece_list(new_piece_size)?;
             let new_piece_offset = if !free_piece_offset.is_zero() {
+                // uses the whole of the free piece, the large one may be larger than needed.
                 self.0.seek_from_start(free_piece_offset)?;
+                piece.size = self.0.read_piece_size()?;
                 free_piece_offset
             } else {
+                piece.size = new_piece_size;
                 self.0.seek_to_end()?
             };
             piece.offset = new_piece_offset;
-            piece.size = new_piece_size;
             debug_assert!(piece.size.is_valid_key());
             match piece.dat_write_piece_one(&mut self.0) {
                 Ok(()) => (),
